@@ -7,6 +7,7 @@ LEVEL = "fault_enumeration"
 SHARDS = {"quick": 8, "thorough": 16}
 TIMEOUT = {"quick": 900, "thorough": 7200}
 REQUIRED = {"fault.ckd_priv": 300, "fault.ckd_pub": 200, "fault.master": 30, "fault.bip85": 60, "control": 400, "sequence": 40}
+ANCHORS = ['bip32:PrvKeyNode.ckd', 'bip32:PubKeyNode.ckd', 'bip32:PrvKeyNode.master_key', 'bip85:BIP85DeterministicEntropy.correct_key', 'bip85:BIP85DeterministicEntropy.wif', 'bip85:BIP85DeterministicEntropy.xprv']
 RULE = ("fault classes enumerated completely: CKDpriv (normal and hardened) IL in {n, n+1, 2^256-1, random>=n} and IL = n - k_par "
         "(child 0); CKDpub IL in {n, n+1, 2^256-1, random>=n} and IL = n - k_par (child = infinity); master IL in {0, n, n+1, "
         "2^256-1, random>=n}; BIP85 secret in {0, n, n+1, 2^256-1, random>=n} for wif and for the key half of xprv; x parents "
